@@ -452,3 +452,51 @@ Proof. vm_compute. reflexivity. Qed.
 (** the thumbnail offset recorded after the thumbnail was written; a data-block offset recorded after its length *)
 Theorem late_offsets_refuted : low_high_ok late_low_events = false /\ set_then_block res_key late_block_events = false.
 Proof. vm_compute. split; reflexivity. Qed.
+
+(** * every fitting file can be written *)
+Lemma pack_fits : forall f vals, wf_fmt f = true -> fits f vals = true -> exists bs, pack f vals = Some bs.
+Proof. intros f vals Hw Hf. destruct (unpack_pack _ _ Hw Hf) as (bs & Hp & _). eauto. Qed.
+
+Lemma pack_entries_total : forall F es, wf_fmt (f_entry F) = true -> forallb (entry_fits F) es = true ->
+  exists eb, opt_concat (map (pack_e F) es) = Some eb.
+Proof.
+  intros F es Hw. induction es as [|[[id fl] x] es IH]; intros Hf; [exists []; reflexivity|].
+  cbn [forallb] in Hf. apply andb_prop in Hf. destruct Hf as [H1 H2]. cbn [entry_fits] in H1.
+  destruct (pack_fits _ _ Hw H1) as (a & Ha). destruct (IH H2) as (b & Hb).
+  exists (a ++ b). cbn [map opt_concat pack_e]. rewrite Ha, Hb. reflexivity.
+Qed.
+
+Lemma blocks_total : forall F ds, wf_fmt (f_len F) = true ->
+  forallb (fun d => fits (f_len F) [VInt (Z.of_nat (List.length d))]) ds = true ->
+  exists bb, opt_concat (map (block F) ds) = Some bb.
+Proof.
+  intros F ds Hw. induction ds as [|d ds IH]; intros Hf; [exists []; reflexivity|].
+  cbn [forallb] in Hf. apply andb_prop in Hf. destruct Hf as [H1 H2].
+  destruct (pack_fits _ _ Hw H1) as (a & Ha). destruct (IH H2) as (b & Hb).
+  exists ((a ++ d) ++ b). cbn [map opt_concat]. unfold block at 1. rewrite Ha, Hb. reflexivity.
+Qed.
+
+Theorem encode_total_73 : forall F G v, fmts_wf F = true -> (3 <= v_minor v)%Z -> vfile_fits F G v = true ->
+  exists file, encode_file F G v = Some file.
+Proof.
+  intros F G v HW Hm HF.
+  unfold fmts_wf in HW. repeat (apply andb_prop in HW; destruct HW as [HW ?]).
+  unfold vfile_fits in HF. repeat (apply andb_prop in HF; destruct HF as [HF ?]).
+  rewrite (encode73 F G v Hm).
+  destruct (pack_fits _ _ HW HF) as (vb & Ev). destruct (pack_fits _ _ H4 H10) as (hb & Eh).
+  destruct (pack_fits _ _ H3 H9) as (db & Ed). destruct (pack_fits _ _ H2 H8) as (cb & Ec).
+  destruct (pack_entries_total F _ H1 H7) as (eb & Ee). destruct (blocks_total F _ H0 H6) as (bb & Eb).
+  cbn [opt_concat]. rewrite Ev, Eh, Ed, Ec, Ee, Eb. cbn [opt_app]. eexists. reflexivity.
+Qed.
+
+Theorem encode_total_pre73 : forall F G v, fmts_wf F = true -> (v_minor v < 3)%Z -> vfile_fits_old F v = true ->
+  exists file, encode_file F G v = Some file.
+Proof.
+  intros F G v HW Hm HF.
+  unfold fmts_wf in HW. repeat (apply andb_prop in HW; destruct HW as [HW ?]).
+  unfold vfile_fits_old in HF. repeat (apply andb_prop in HF; destruct HF as [HF ?]).
+  rewrite (encode_old F G v Hm).
+  destruct (pack_fits _ _ HW HF) as (vb & Ev). destruct (pack_fits _ _ H4 H8) as (hb & Eh).
+  destruct (pack_fits _ _ H3 H7) as (db & Ed).
+  cbn [opt_concat]. rewrite Ev, Eh. destruct (2 <=? v_minor v)%Z; [rewrite Ed|]; cbn [opt_app]; eexists; reflexivity.
+Qed.
